@@ -621,6 +621,12 @@ C02_CLASSES = {
 }
 
 
+C02_CROWDED = {"crowded:" + k: crowded(v) for k, v in {
+    "zero-value-output": v_zero_value_output, "only-zero-output": v_only_zero_output, "no-outputs": v_no_outputs,
+    "overspend-by-one": v_overspend_by_one, "over-limit-output": v_huge_output, "wraparound-total": v_wraparound_total,
+    "valid-spend": c_valid_spend}.items()}
+
+
 # --------------------------------------------------------------------------- the monitored attempt
 class Stream:
     def __init__(self, prop_codes, viol_prefix):
